@@ -274,6 +274,11 @@ def domain_1d(n, family):
             i += 1
     elif family == 1:
         counts = list(range(1, n + 1))
+    elif family == 3:
+        # lists in which two different layouts have the same borehole count (zoned and polygon-constrained lists do)
+        counts = [1]
+        for i in range(1, n):
+            counts.append(counts[-1] + (0 if i % 4 == 3 else 1 + (i % 3)))
     else:
         counts = [1]
         for i in range(1, n):
@@ -400,7 +405,7 @@ def run_batch(spec):
     def st(k):
         res["stats"][k] = res["stats"].get(k, 0) + 1
 
-    def handle(rec, nested, script, case):
+    def handle(rec, nested, script, case, monotone=True):
         res["runs"] += 1
         st("outcome_" + rec["outcome"])
         st("kind_" + rec["kind"])
@@ -408,7 +413,7 @@ def run_batch(spec):
             st("escaped" if rec["escape_small"] + rec["escape_large"] else "regular")
             if rec["cap"] is not None and rec["count"] >= rec["cap"] - 1:
                 st("cap_binding")
-        j = judge(rec, nested, script)
+        j = judge(rec, nested, script, monotone=monotone)
         for p, lst in j.items():
             for mech, msg in lst:
                 if len(res["viol"][p]) < 12:
@@ -419,7 +424,7 @@ def run_batch(spec):
     k = 0
     # ---- 1-D lists: every length x threshold level x caps
     for n in range(1, spec["n1d"] + 1):
-        for fam in range(3):
+        for fam in range(4):
             dom, descr, counts = domain_1d(n, fam)
             nested = [dom]
             for t in range(0, n + 1):
@@ -436,7 +441,7 @@ def run_batch(spec):
                         for slope in (0.002, 0.05):
                             sc = Script(tab, slope)
                             rec = run_design("1d", dom, descr, sc, cap, flag)
-                            handle(rec, nested, sc, {"kind": "1d", "n": n, "family": fam, "threshold": t, "cap": cap, "flag": flag, "slope": slope})
+                            handle(rec, nested, sc, {"kind": "1d", "n": n, "family": fam, "threshold": t, "cap": cap, "flag": flag, "slope": slope}, monotone=(fam != 3))
     # ---- nested flows
     for it in range(spec["nnested"]):
         L = int(g.integers(1, 6))
